@@ -294,6 +294,12 @@ def analyse(prog, lines):
             inside.pop(t, None)      # the helping slot is the last thing a walk touches in a node
     # quiescent end state: the count equation of C02
     fin = [e for e in evs if e.kind == "FINAL"]
+    destructor_panic = any(e.kind == "DESTRUCTOR-PANIC" for e in evs)
+    if destructor_panic:
+        # C18: whatever else goes wrong in a run with a panicking destructor is a C18 finding too
+        for f0 in list(findings):
+            if f0[0] in ("C01", "C03", "C12", "C13") or (f0[0] == "C02" and "has count" not in f0[1]):
+                findings.append(("C18", "in a run where a pointee destructor panicked inside an operation: " + f0[1]))
     metrics = {"max_load_steps": max_load_steps, "complete": complete}
     all_exited = complete and sum(1 for e in evs if e.kind == "EXIT") == nthreads
     if fin and all_exited:
@@ -333,6 +339,11 @@ def analyse(prog, lines):
                 elif have != expect:
                     findings.append(("C02", "object at %d has count %d at quiescence, owners say %d (stores %d + owned %d + guards %d - unpaid slots %d)" % (
                         a, have, expect, stores.get(a, 0), owned.get(a, 0), guards.get(a, 0), slots.get(a, 0))))
+                    if destructor_panic and have == expect + 1:
+                        # known finding D6: a destructor panicking inside a writer's slot walk leaks the removed value's reference
+                        findings.append(("C18", "after a pointee destructor panicked inside an operation the count of the value at %d is %d although its owners say %d: the reference of the value the writer removed is leaked" % (a, have, expect), "D6-destructor-panic-leak"))
+                    elif destructor_panic:
+                        findings.append(("C18", "after a pointee destructor panicked inside an operation the count of the value at %d is %d, owners say %d" % (a, have, expect)))
         metrics["quiescent_checked"] = True
         nnodes = sum(1 for e in fin if e.f[0] == "node")
         metrics["nodes"] = nnodes
